@@ -50,10 +50,10 @@ ASSUME PrintT(<<"words", IF IOEnv.WHAT = "enum" THEN Words(L!Init0, <<>>, Depth)
 \* fields of a dead channel object cannot be observed: they are projected away on both sides
 Proj(s, sd) ==
   LET alive == s.obj[sd] = "alive" IN
-  [alive |-> alive, reg |-> s.reg[sd], cb |-> s.cb[sd], ends |-> s.ends[sd], cbgot |-> s.cbgot[sd], rgot |-> s.rgot[sd], eof |-> s.eof[sd], rerr |-> s.rerr[sd],
+  [alive |-> alive, reg |-> s.reg[sd], cb |-> s.cb[sd], ends |-> s.ends[sd], cbgot |-> s.cbgot[sd], rgot |-> s.rgot[sd], eof |-> s.eof[sd], rerr |-> s.rerr[sd], tmo |-> 0, operr |-> 0,
    closed |-> alive /\ s.closed[sd], rc |-> alive /\ s.rc[sd], hasq |-> alive /\ s.hasq[sd], errs |-> IF alive THEN s.errs[sd] ELSE 0,
    queue |-> IF alive /\ s.hasq[sd] THEN s.queue[sd] ELSE <<>>]
-Fields == <<"alive", "reg", "cb", "ends", "cbgot", "rgot", "eof", "closed", "rc", "hasq", "queue", "errs", "rerr">>
+Fields == <<"alive", "reg", "cb", "ends", "cbgot", "rgot", "eof", "closed", "rc", "hasq", "queue", "errs", "rerr", "tmo", "operr">>
 Clause(f) ==
   CASE f = "reg" -> "C18.chanlife.channel-table-entry-differs-from-model"
     [] f = "cb" -> "C18.chanlife.callback-table-entry-differs-from-model"
@@ -65,6 +65,8 @@ Clause(f) ==
     [] f = "rc" -> "C03.chanlife.receiveclosed-flag-differs-from-model"
     [] f = "queue" -> "C03.chanlife.queue-differs-from-model"
     [] f = "rerr" -> "C07.chanlife.remote-errors-raised-by-receive-differ-from-model"
+    [] f = "tmo" -> "C03.chanlife.receive-found-nothing-although-the-model-has-an-item-or-the-endmarker"
+    [] f = "operr" -> "C18.chanlife.operation-raised-although-the-model-enables-it"
     [] f = "errs" -> "C07.chanlife.pending-remote-errors-differ-from-model"
     [] OTHER -> "C18.chanlife.state-differs-from-model"
 Differs(want, got) == {i \in 1..Len(Fields) : want[Fields[i]] # got[Fields[i]]}
